@@ -85,12 +85,20 @@ def responseFinish (m : CMsg) (c : Bool) : CMsg :=
   let m := if m.status == 304 then { m with headers := (m.headers.del sCL).del sCE } else m
   if m.reqHead then { m with pieces := [], bodyChunked := false } else m
 
+/-- first stage of `ComposedResponse.prepare()`: statuses without body drop the body and the transfer coding (the F47 repair) -/
+def respStage1 (m : CMsg) : R CMsg :=
+  if bodilessStatus m.status then setChunked { m with pieces := [] } false else .ok m
+
+/-- second stage: a Content-Encoding field sets the body's codec and, unless there is no body, switches chunked on -/
+def respStage2 (bodiless : Bool) (m1 : CMsg) : R CMsg :=
+  match m1.headers.get? sCE with
+  | some _ => if !bodiless then setChunked { m1 with coded := true } true else .ok { m1 with coded := true }
+  | none => .ok m1
+
 /-- `ComposedResponse.prepare()` (framing part; no Range request) -/
 def prepareResponse (m : CMsg) : R CMsg :=
-  (if bodilessStatus m.status then setChunked { m with pieces := [] } false else .ok m) >>= fun m1 =>      -- the F47 repair
-  (match m1.headers.get? sCE with
-    | some _ => if !bodilessStatus m.status then setChunked { m1 with coded := true } true else .ok { m1 with coded := true }
-    | none => .ok m1) >>= fun m2 =>
+  respStage1 m >>= fun m1 =>
+  respStage2 (bodilessStatus m.status) m1 >>= fun m2 =>
   isChunked m2.headers >>= fun c2 =>
   setChunked m2 c2 >>= fun m3 =>
   isChunked m3.headers >>= fun c3 =>
